@@ -47,7 +47,10 @@ Definition mk_nop (o : nlop) : nop := mkNop (mk_op (fst o)) (snd o).
 Notation cmodel := (sym * bool * bool)%type.
 Inductive case :=
 | mk (c_schema : schema) (c_txns : list (list nlop * tobs))
-| mkCreate (c_models : list cmodel) (c_ids : list (sym * sym)).
+| mkCreate (c_models : list cmodel) (c_ids : list (sym * sym))
+(** a "transact" request as the server receives it, after the transactions [c_txns]: [None] is an operation that
+    cannot be decoded; observed: the reply *)
+| mkReq (c_schema : schema) (c_txns : list (list nlop * tobs)) (c_args : list (option nlop)) (c_reply : list oresult).
 
 Definition find_T (S : schema) (t : sym) : table :=
   default (mkTable t [] [] true) (find_table S t).
@@ -117,10 +120,26 @@ Fixpoint check_txns (S : schema) (d : dbstate) (l : list (list nlop * tobs)) : n
     end
   end.
 
+Fixpoint run_txns (S : schema) (d : dbstate) (l : list (list nlop * tobs)) : dbstate :=
+  match l with
+  | [] => d
+  | (lops, _) :: l' => run_txns S (commit d (transact_named S d (map mk_nop lops))) l'
+  end.
+
 Definition check (c : case) : nat :=
   match c with
   | mk sch txns => check_txns sch ∅ txns
   | mkCreate ms ids => if bool_decide (map create_ids ms = ids) then 0 else 7
+  | mkReq sch txns args reply =>
+      match check_txns sch ∅ txns with
+      | 0 =>
+          let nargs := map (option_map mk_nop) args in
+          let r := server_transact sch (run_txns sch ∅ txns) nargs in
+          (* the table of an operation, for the comparison of selected rows *)
+          let ops := map (fun a => match a with Some o => n_op o | None => OOther end) nargs in
+          if results_ok sch ops (fst r) reply then 0 else 8
+      | t => t
+      end
   end.
 
 Definition run := run_cases check.
